@@ -162,6 +162,9 @@ def aperture_photometry(data, apertures, error=None, mask=None,
                               AstropyUserWarning)
 
         mask = data.mask
+        if mask is np.ma.nomask:
+            # e.g., NDData created from a MaskedArray without a mask
+            mask = None
         wcs = data.wcs
 
         if isinstance(data.uncertainty, StdDevUncertainty):
